@@ -127,6 +127,40 @@ fn oracle(d: &Dag, anc: &[BTreeSet<usize>], s: &BTreeSet<usize>, nodes: &[Node])
     None
 }
 
+/// What `jj log` shows: the stream regrouped by `TopoGroupedGraph` (oracle only, no model): the same
+/// nodes with the same edges, and every commit before its ancestors.  `prio` < len prioritises that
+/// node's branch (as `jj log` does for the working copy), `prio` = len prioritises nothing.
+fn topo_grouped(out: &mut Out, anc: &[BTreeSet<usize>], nodes: &[Node], case_no: u64, req: &str, prio: usize) {
+    use jj_lib::graph::TopoGroupedGraph;
+    let input: Vec<Result<(usize, Vec<GraphEdge<usize>>), std::convert::Infallible>> = nodes.iter().map(|(c, es)| Ok((*c, es.iter().map(|(k, t)| match k {
+        'd' => GraphEdge::direct(*t), 'i' => GraphEdge::indirect(*t), _ => GraphEdge::missing(*t) }).collect()))).collect();
+    let res = guard(|| {
+        let mut g = TopoGroupedGraph::new(futures::stream::iter(input), |c: &usize| c);
+        if prio < nodes.len() { g.prioritize_branch(nodes[prio].0); }
+        let v: Vec<(usize, Vec<GraphEdge<usize>>)> = Box::pin(g.stream()).try_collect().block_on().unwrap();
+        v
+    });
+    out.impl_only();
+    out.tally("topo_grouped", if prio < nodes.len() { "prioritized" } else { "plain" });
+    let got = match res {
+        Err(e) => { out.oracle_fail("topo:panic", format!("case {case_no} {req} prio={prio}: {e}")); return; }
+        Ok(v) => v,
+    };
+    let back: Vec<Node> = got.iter().map(|(c, es)| (*c, es.iter().map(|e| (match e.edge_type {
+        GraphEdgeType::Direct => 'd', GraphEdgeType::Indirect => 'i', GraphEdgeType::Missing => 'm' }, e.target)).collect())).collect();
+    let mut a = back.clone(); a.sort();
+    let mut b = nodes.to_vec(); b.sort();
+    let pos: HashMap<usize, usize> = back.iter().enumerate().map(|(i, n)| (n.0, i)).collect();
+    let mut fail: Option<(&'static str, String)> = None;
+    if a != b { fail = Some(("topo:nodes-or-edges-changed", format!("output {}", show_nodes(&back)))); }
+    else {
+        'outer: for (c, _) in &back { for (d, _) in &back {
+            if c != d && anc[*d].contains(c) && pos[c] < pos[d] { fail = Some(("topo:ancestor-before-descendant", format!("{c} is an ancestor of {d} but is shown first: {}", show_nodes(&back)))); break 'outer; }
+        } }
+    }
+    match fail { None => out.oracle_ok(), Some((sig, d)) => out.oracle_fail(sig, format!("case {case_no} {req} prio={prio}: {d}")) }
+}
+
 fn one(out: &mut Out, repo: &Arc<ReadonlyRepo>, b: &Built, anc: &[BTreeSet<usize>], shown: &[usize], skip: bool, stream: &'static str) {
     let idx: HashMap<CommitId, usize> = b.commits.iter().enumerate().map(|(i, c)| (c.id().clone(), i)).collect();
     let ids: Vec<CommitId> = shown.iter().map(|&i| b.commits[i].id().clone()).collect();
@@ -157,6 +191,7 @@ fn one(out: &mut Out, repo: &Arc<ReadonlyRepo>, b: &Built, anc: &[BTreeSet<usize
                 None => out.oracle_ok(),
                 Some((sig, det)) => out.oracle_fail(sig, format!("case {n} [{stream}] {req} -> {resp}: {det}")),
             }
+            if skip && !nodes.is_empty() { topo_grouped(out, anc, &nodes, n, &req, (n as usize * 7 + shown.len()) % (nodes.len() + 1)); }
             let kinds: BTreeSet<char> = nodes.iter().flat_map(|n| n.1.iter().map(|e| e.0)).collect();
             out.tally("stream", stream);
             out.tally("skip_transitive", if skip { "1" } else { "0" });
